@@ -261,4 +261,226 @@ theorem min_gadget_succeeds {es : List (Exp (Ext K))} {req : Req} {s : St (Ext K
     · unfold minState2
       exact (gD.pushAll _).pushC _
 
+/-! ### the piecewise-linear fragment, relative to the bounds the analyzer publishes -/
+
+def SrcVars (e : Exp (Ext K)) : Prop := ∀ x ∈ varsOf e, SrcName x
+def SrcVarsL (es : List (Exp (Ext K))) : Prop := ∀ e ∈ es, SrcVars e
+
+/-- `PW bm e q`: `e` is built from affine shapes, `abs`, `min`, `max`; every product has a literal factor, every
+divisor is a non-zero literal; and wherever a big-M gadget is needed for the requirement at hand, the bounds `bm`
+are finite (exactly the condition whose failure is `MissingFiniteBounds`).  Decidable, by recursion on `e`. -/
+inductive PW (bm : BoundsMap (Ext K)) : Exp (Ext K) → Req → Prop
+  | num (v : Ext K) (q : Req) : PW bm (.num v) q
+  | var (x : String) (q : Req) : PW bm (.var x) q
+  | add {l r : Exp (Ext K)} {q : Req} : PW bm l q → PW bm r q → PW bm (.bin .add l r) q
+  | sub {l r : Exp (Ext K)} {q : Req} : PW bm l q → PW bm r q.reversed → PW bm (.bin .sub l r) q
+  | mulL0 (c : Ext K) (r : Exp (Ext K)) (q : Req) :
+      (Arith.eq c (Arith.zero : Ext K) && !(Exp.mayBeUndefined r)) = true → PW bm (.bin .mul (.num c) r) q
+  | mulL (c : Ext K) {r : Exp (Ext K)} {q : Req} : PW bm r (q.throughScale c) → PW bm (.bin .mul (.num c) r) q
+  | mulR0 {l : Exp (Ext K)} (c : Ext K) (q : Req) : (∀ v, l = .num v → False) →
+      (Arith.eq c (Arith.zero : Ext K) && !(Exp.mayBeUndefined l)) = true → PW bm (.bin .mul l (.num c)) q
+  | mulR {l : Exp (Ext K)} (c : Ext K) {q : Req} : (∀ v, l = .num v → False) → PW bm l (q.throughScale c) →
+      PW bm (.bin .mul l (.num c)) q
+  | div {l : Exp (Ext K)} (d : Ext K) {q : Req} : ¬ (Arith.eq d (Arith.zero : Ext K) = true) →
+      PW bm l (q.throughScale (Arith.div Arith.one d)) → PW bm (.bin .div l (.num d)) q
+  | neg {e : Exp (Ext K)} {q : Req} : PW bm e q.reversed → PW bm (.un .neg e) q
+  | absPos {e : Exp (Ext K)} {q : Req} : SrcVars e → Arith.ge (boundsOf bm e).lower (Arith.zero : Ext K) = true →
+      PW bm e q → PW bm (.abs e) q
+  | absNeg {e : Exp (Ext K)} {q : Req} : SrcVars e → ¬ Arith.ge (boundsOf bm e).lower (Arith.zero : Ext K) = true →
+      Arith.le (boundsOf bm e).upper (Arith.zero : Ext K) = true → PW bm e q.reversed → PW bm (.abs e) q
+  | absBigM {e : Exp (Ext K)} {q : Req} : SrcVars e → ¬ Arith.ge (boundsOf bm e).lower (Arith.zero : Ext K) = true →
+      ¬ Arith.le (boundsOf bm e).upper (Arith.zero : Ext K) = true →
+      (q = .lower ∨ (Arith.isFinite (boundsOf bm e).lower = true ∧ Arith.isFinite (boundsOf bm e).upper = true)) →
+      PW bm e .exact → PW bm (.abs e) q
+  | max1 {es : List (Exp (Ext K))} {q : Req} : SrcVarsL es → es ≠ [] →
+      ((retainedFlagsE .max es (boundsOfList bm es)).filter id).length = 1 →
+      (∀ e ∈ selectFlagged es (retainedFlagsE .max es (boundsOfList bm es)), PW bm e q) → PW bm (.max es) q
+  | maxN {es : List (Exp (Ext K))} {q : Req} : SrcVarsL es → es ≠ [] →
+      ((retainedFlagsE .max es (boundsOfList bm es)).filter id).length ≠ 0 →
+      ((retainedFlagsE .max es (boundsOfList bm es)).filter id).length ≠ 1 →
+      (q = .lower ∨
+        (Arith.isFinite (boundsOf bm (.max (selectFlagged es (retainedFlagsE .max es (boundsOfList bm es))))).upper = true ∧
+         ∀ b ∈ selectFlagged (boundsOfList bm es) (retainedFlagsE .max es (boundsOfList bm es)),
+           Arith.isFinite b.lower = true)) →
+      (∀ e ∈ selectFlagged es (retainedFlagsE .max es (boundsOfList bm es)),
+        PW bm e (if q = .lower then .lower else .exact)) → PW bm (.max es) q
+  | min1 {es : List (Exp (Ext K))} {q : Req} : SrcVarsL es → es ≠ [] →
+      ((retainedFlagsE .min es (boundsOfList bm es)).filter id).length = 1 →
+      (∀ e ∈ selectFlagged es (retainedFlagsE .min es (boundsOfList bm es)), PW bm e q) → PW bm (.min es) q
+  | minN {es : List (Exp (Ext K))} {q : Req} : SrcVarsL es → es ≠ [] →
+      ((retainedFlagsE .min es (boundsOfList bm es)).filter id).length ≠ 0 →
+      ((retainedFlagsE .min es (boundsOfList bm es)).filter id).length ≠ 1 →
+      (q = .higher ∨
+        (Arith.isFinite (boundsOf bm (.min (selectFlagged es (retainedFlagsE .min es (boundsOfList bm es))))).lower = true ∧
+         ∀ b ∈ selectFlagged (boundsOfList bm es) (retainedFlagsE .min es (boundsOfList bm es)),
+           Arith.isFinite b.upper = true)) →
+      (∀ e ∈ selectFlagged es (retainedFlagsE .min es (boundsOfList bm es)),
+        PW bm e (if q = .higher then .higher else .exact)) → PW bm (.min es) q
+
+/-- what success means here: a result, and a state reached by a `Grow` step. -/
+def Succ (bm : BoundsMap (Ext K)) (e : Exp (Ext K)) (q : Req) : Prop :=
+  ∀ s : St (Ext K), NamesOK s → BAgree bm s → ∃ c s', linExp e q s = .ok (c, s') ∧ Grow s s'
+
+theorem boundsOf_agree {bm : BoundsMap (Ext K)} {s : St (Ext K)} (hb : BAgree bm s) {e : Exp (Ext K)}
+    (hv : SrcVars e) : boundsOf s.bounds e = boundsOf bm e :=
+  boundsOf_congr e (fun x hx => hb x (hv x hx))
+
+theorem boundsOfList_agree {bm : BoundsMap (Ext K)} {s : St (Ext K)} (hb : BAgree bm s) {es : List (Exp (Ext K))}
+    (hv : SrcVarsL es) : boundsOfList s.bounds es = boundsOfList bm es :=
+  boundsOfList_congr es (fun e he => boundsOf_agree hb (hv e he))
+
+theorem srcVars_max {es : List (Exp (Ext K))} (hv : SrcVarsL es) (fl : List Bool) :
+    SrcVars (.max (selectFlagged es fl)) := by
+  intro x hx
+  simp only [varsOf] at hx
+  obtain ⟨e, he, hxe⟩ := mem_varsOfList.mp hx
+  exact hv e (selectFlagged_subset he) x hxe
+
+theorem srcVars_min {es : List (Exp (Ext K))} (hv : SrcVarsL es) (fl : List Bool) :
+    SrcVars (.min (selectFlagged es fl)) := by
+  intro x hx
+  simp only [varsOf] at hx
+  obtain ⟨e, he, hxe⟩ := mem_varsOfList.mp hx
+  exact hv e (selectFlagged_subset he) x hxe
+
+theorem linList_succeeds {bm : BoundsMap (Ext K)} {q : Req} : ∀ (rs : List (Exp (Ext K))),
+    (∀ e ∈ rs, Succ bm e q) → ∀ s : St (Ext K), NamesOK s → BAgree bm s →
+      ∃ ops sL, linList rs q s = .ok (ops, sL) ∧ Grow s sL
+  | [], _, s, _, _ => ⟨[], s, by simp [linList, pure_ok], Grow.refl s⟩
+  | e :: rs, h, s, hn, hb => by
+    obtain ⟨c, s1, h1, g1⟩ := h e (by simp) s hn hb
+    obtain ⟨ops, sL, h2, g2⟩ := linList_succeeds rs (fun x hx => h x (by simp [hx])) s1 (hn.grow g1) (hb.grow g1)
+    exact ⟨ctxToExp c :: ops, sL, by simp only [linList, bind_ok, pure_ok]; exact ⟨c, s1, h1, ops, sL, h2, rfl⟩,
+      g1.trans g2⟩
+
+/-- **no spurious error in `Exp::linearize` on the piecewise-linear fragment**: whatever the state — as long as
+the user's names do not start with `$` (`NamesOK`) and the bounds of the user's variables are those of `bm` —
+the lowering succeeds; in particular every auxiliary name is new when it is declared. -/
+theorem linExp_PW {bm : BoundsMap (Ext K)} {e : Exp (Ext K)} {q : Req} (h : PW bm e q) : Succ bm e q := by
+  induction h with
+  | num v q => intro s _ _; exact ⟨_, s, by rw [linExp]; rfl, Grow.refl s⟩
+  | var x q => intro s _ _; exact ⟨_, s, by rw [linExp]; rfl, Grow.refl s⟩
+  | add _ _ ihl ihr =>
+    intro s hn hb
+    obtain ⟨a, s1, h1, g1⟩ := ihl s hn hb
+    obtain ⟨b, s2, h2, g2⟩ := ihr s1 (hn.grow g1) (hb.grow g1)
+    exact ⟨_, s2, by rw [linExp]; simp only [bind_ok, pure_ok]; exact ⟨a, s1, h1, b, s2, h2, rfl⟩, g1.trans g2⟩
+  | sub _ _ ihl ihr =>
+    intro s hn hb
+    obtain ⟨a, s1, h1, g1⟩ := ihl s hn hb
+    obtain ⟨b, s2, h2, g2⟩ := ihr s1 (hn.grow g1) (hb.grow g1)
+    exact ⟨_, s2, by rw [linExp]; simp only [bind_ok, pure_ok]; exact ⟨a, s1, h1, b, s2, h2, rfl⟩, g1.trans g2⟩
+  | mulL0 c r q hg =>
+    intro s _ _
+    exact ⟨_, s, by rw [linExp, if_pos hg]; rfl, Grow.refl s⟩
+  | @mulL c r q _ ih =>
+    intro s hn hb
+    by_cases hg : (Arith.eq c (Arith.zero : Ext K) && !(Exp.mayBeUndefined r)) = true
+    · exact ⟨_, s, by rw [linExp, if_pos hg]; rfl, Grow.refl s⟩
+    · obtain ⟨y, s1, hy, g1⟩ := ih s hn hb
+      exact ⟨_, s1, by rw [linExp, if_neg hg]; simp only [bind_ok, pure_ok]; exact ⟨y, s1, hy, rfl⟩, g1⟩
+  | mulR0 c q hna hg =>
+    intro s _ _
+    exact ⟨_, s, by rw [linExp.eq_4 _ _ _ hna, if_pos hg]; rfl, Grow.refl s⟩
+  | @mulR l c q hna _ ih =>
+    intro s hn hb
+    by_cases hg : (Arith.eq c (Arith.zero : Ext K) && !(Exp.mayBeUndefined l)) = true
+    · exact ⟨_, s, by rw [linExp.eq_4 _ _ _ hna, if_pos hg]; rfl, Grow.refl s⟩
+    · obtain ⟨y, s1, hy, g1⟩ := ih s hn hb
+      exact ⟨_, s1, by rw [linExp.eq_4 _ _ _ hna, if_neg hg]; simp only [bind_ok, pure_ok]; exact ⟨y, s1, hy, rfl⟩, g1⟩
+  | div d hd _ ih =>
+    intro s hn hb
+    obtain ⟨y, s1, hy, g1⟩ := ih s hn hb
+    exact ⟨_, s1, by rw [linExp, if_neg hd]; simp only [bind_ok, pure_ok]; exact ⟨y, s1, hy, rfl⟩, g1⟩
+  | neg _ ih =>
+    intro s hn hb
+    obtain ⟨y, s1, hy, g1⟩ := ih s hn hb
+    exact ⟨_, s1, by rw [linExp]; simp only [bind_ok, pure_ok]; exact ⟨y, s1, hy, rfl⟩, g1⟩
+  | absPos hv hpos _ ih =>
+    intro s hn hb
+    obtain ⟨y, s1, hy, g1⟩ := ih s hn hb
+    refine ⟨y, s1, ?_, g1⟩
+    rw [linExp]
+    simp only [bind_ok, get_ok]
+    refine ⟨s, s, rfl, ?_⟩
+    rw [boundsOf_agree hb hv, if_pos hpos]
+    exact hy
+  | absNeg hv h1 h2 _ ih =>
+    intro s hn hb
+    obtain ⟨y, s1, hy, g1⟩ := ih s hn hb
+    refine ⟨y.mulBy (Arith.ofInt (-1)), s1, ?_, g1⟩
+    rw [linExp]
+    simp only [bind_ok, get_ok]
+    refine ⟨s, s, rfl, ?_⟩
+    rw [boundsOf_agree hb hv, if_neg h1, if_pos h2]
+    simp only [bind_ok, pure_ok]
+    exact ⟨y, s1, hy, rfl⟩
+  | absBigM hv h1 h2 hfin _ ih =>
+    intro s hn hb
+    obtain ⟨innerC, s1, hin, g1⟩ := ih s hn hb
+    have hbe := boundsOf_agree hb hv
+    obtain ⟨c, s', hok, g2⟩ := abs_gadget_succeeds (req := _) (by rw [hbe]; exact h1) (by rw [hbe]; exact h2)
+      (by rw [hbe]; exact hfin) hin (hn.grow g1)
+    exact ⟨c, s', hok, g1.trans g2⟩
+  | @max1 es q hv hne h1 _ ih =>
+    intro s hn hb
+    have hbl := boundsOfList_agree hb hv
+    have hlen : es.length = (retainedFlagsE .max es (boundsOfList bm es)).length := by
+      rw [retainedFlagsE_length _ _ _ (by rw [boundsOfList_eq_map, List.length_map])]
+    have hsl := selectFlagged_length es _ hlen
+    rw [h1] at hsl
+    cases hrs : selectFlagged es (retainedFlagsE .max es (boundsOfList bm es)) with
+    | nil => rw [hrs] at hsl; simp at hsl
+    | cons e1 rest =>
+      obtain ⟨c, s', hok, g⟩ := ih e1 (by rw [hrs]; simp) s hn hb
+      refine ⟨c, s', ?_, g⟩
+      rw [linExp, linExtreme.eq_def]
+      simp only [ite_ok, fail_ok, bind_ok, get_ok, and_false, false_or]
+      refine ⟨by simpa using hne, s, s, rfl, ?_, Or.inl ⟨?_, ?_⟩⟩
+      · rw [hbl, h1]; simp
+      · rw [hbl, h1]; simp
+      · rw [linFirstFlagged_eq, hbl, hrs]; exact hok
+  | @maxN es q hv hne hn0 hn1 hfin _ ih =>
+    intro s hn hb
+    have hbl := boundsOfList_agree hb hv
+    have hbe : boundsOf s.bounds (.max (selectFlagged es (retainedFlagsE .max es (boundsOfList bm es)))) =
+        boundsOf bm (.max (selectFlagged es (retainedFlagsE .max es (boundsOfList bm es)))) :=
+      boundsOf_agree hb (srcVars_max hv _)
+    rw [linExp]
+    refine max_gadget_succeeds _ rfl _ rfl _ rfl _ rfl hne (by rw [hbl]; exact hn0) (by rw [hbl]; exact hn1)
+      (by rw [hbl, hbe]; exact hfin) hn ?_
+    intro s1 g1
+    rw [hbl]
+    exact linList_succeeds _ ih s1 (hn.grow g1) (hb.grow g1)
+  | @min1 es q hv hne h1 _ ih =>
+    intro s hn hb
+    have hbl := boundsOfList_agree hb hv
+    have hlen : es.length = (retainedFlagsE .min es (boundsOfList bm es)).length := by
+      rw [retainedFlagsE_length _ _ _ (by rw [boundsOfList_eq_map, List.length_map])]
+    have hsl := selectFlagged_length es _ hlen
+    rw [h1] at hsl
+    cases hrs : selectFlagged es (retainedFlagsE .min es (boundsOfList bm es)) with
+    | nil => rw [hrs] at hsl; simp at hsl
+    | cons e1 rest =>
+      obtain ⟨c, s', hok, g⟩ := ih e1 (by rw [hrs]; simp) s hn hb
+      refine ⟨c, s', ?_, g⟩
+      rw [linExp, linExtreme.eq_def]
+      simp only [ite_ok, fail_ok, bind_ok, get_ok, and_false, false_or]
+      refine ⟨by simpa using hne, s, s, rfl, ?_, Or.inl ⟨?_, ?_⟩⟩
+      · rw [hbl, h1]; simp
+      · rw [hbl, h1]; simp
+      · rw [linFirstFlagged_eq, hbl, hrs]; exact hok
+  | @minN es q hv hne hn0 hn1 hfin _ ih =>
+    intro s hn hb
+    have hbl := boundsOfList_agree hb hv
+    have hbe : boundsOf s.bounds (.min (selectFlagged es (retainedFlagsE .min es (boundsOfList bm es)))) =
+        boundsOf bm (.min (selectFlagged es (retainedFlagsE .min es (boundsOfList bm es)))) :=
+      boundsOf_agree hb (srcVars_min hv _)
+    rw [linExp]
+    refine min_gadget_succeeds _ rfl _ rfl _ rfl _ rfl hne (by rw [hbl]; exact hn0) (by rw [hbl]; exact hn1)
+      (by rw [hbl, hbe]; exact hfin) hn ?_
+    intro s1 g1
+    rw [hbl]
+    exact linList_succeeds _ ih s1 (hn.grow g1) (hb.grow g1)
+
 end Rooc.LinP
